@@ -118,6 +118,12 @@ func (s *httpProxy) Handle(ctx context.Context, conn net.Conn) error {
 			return err
 		}
 
+		if req.Method == "HEAD" {
+			// Response.Write ends a chunked reply with a CRLF even when there is no body
+			// to write: after a reply to HEAD that would corrupt the client's stream
+			resp.TransferEncoding = nil
+		}
+
 		err = resp.Write(conn)
 		if err == io.EOF {
 			return nil
